@@ -137,6 +137,10 @@ op('logical_xor', 2, 'return (x != 0) != (y != 0);', ['i32,i32', 'f32,i32', 'u8,
 op('add_same_kind', 2, 'return static_cast<std::decay_t<decltype(y)>>(x + y);', ['i8,i8', 'f32,f32', 'i32,i32'], ['i', 'i'], npf=np.add, cls='same',
    vcall='view::add(x, y, nm::casting::same_kind_t{})', ecall='na::add(x, y, nm::casting::same_kind_t{})', header='add',
    note='casting::same_kind: the requested result type is the operand type')
+# -- an operand that is itself a (unary ufunc) view, and one that is a broadcast view
+op('add_of_negative_view', 2, 'return (-x) + y;', ['i32,i32', 'f32,f64'], ['i', 'i'], npf=lambda a, b: (-a) + b, cls='arith', header='add',
+   vcall='view::add(view::negative(x), y)', ecall='na::add(view::negative(x), y)',
+   hdr=_hdr('ufuncs', 'add') + _hdr('ufuncs', 'negative'), note='left operand is a lazy view (composition)')
 # -- ternary
 op('where', 3, 'return (x != 0) ? y : z;', ['u8,i32,i32', 'u8,f32,f32', 'i32,i32,f64', 'u8,f64,f32'], ['zeros', 'i', 'i'],
    npf=lambda c, a, b: np.where(c != 0, a, b), cls='sel',
@@ -180,6 +184,9 @@ op('mish', 1, 'T sp = x > 20 ? x : std::log(1 + std::exp(x)); return x * std::ta
    npf=lambda a: a * np.tanh(np.log1p(np.exp(a))), cls='same', ulps=4, rtol=1e-5, **A)
 op('tanhshrink', 1, 'return x - std::tanh(x);', F, ['f'], npf=lambda a: a - np.tanh(a), cls='same', ulps=2, rtol=1e-4, **A)
 
+# ops evaluated additionally on extreme element values (type minima/maxima, infinities, signed zero, denormals): no overflow possible
+EXTREMES = {'equal', 'not_equal', 'less', 'less_equal', 'greater', 'greater_equal', 'maximum', 'minimum', 'fmax', 'fmin',
+            'bitwise_and', 'bitwise_or', 'bitwise_xor', 'logical_and', 'logical_or'}
 # ops whose result element type is a known finding: values/routing and the element type are observed by separate cases
 TYPE_SPLIT = {'logical_xor'}
 DELEGATED = {'amax': 'reduction (reduce_maximum): C08', 'amin': 'reduction (reduce_minimum): C08'}
@@ -362,6 +369,14 @@ def gen_vals(rng, dom, t, n):
             v = rng.randint(0, 5)
         elif dom == 'smallexp':
             v = dy(rng, -2, 3, 2) if fl else rng.randint(0, 4)
+        elif dom == 'ext':
+            if fl:
+                big = 3e38 if t == 'f32' else 1.5e308
+                v = rng.choice([float('inf'), float('-inf'), big, -big, 0.0, -0.0, 1.0, -1.0, 2.0 ** -140 if t == 'f32' else 5e-324])
+            else:
+                bits = int(t[1:])
+                lo_, hi_ = (0, 2 ** bits - 1) if uns else (-2 ** (bits - 1), 2 ** (bits - 1) - 1)
+                v = rng.choice([lo_, hi_, 0, 1, hi_ - 1, lo_ + 1] + ([] if uns else [-1]))
         elif dom in ('lo', 'hi'):
             v = (dy(rng, -3, 0) if fl else rng.randint(-12, 0)) if dom == 'lo' else (dy(rng, 0, 3) if fl else rng.randint(0, 12))
         else:
@@ -500,8 +515,8 @@ def mreq(kind, ss):
     return ('outer ' if kind == 'outer' else 'ufunc ') + ' '.join('%s=%s' % (k, fmt(s)) for k, s in zip(keys, ss))
 
 
-def case_for(rng, d, ts, ss, nums=(), kind='uf', params=None, tags=()):
-    doms = d['dom']
+def case_for(rng, d, ts, ss, nums=(), kind='uf', params=None, tags=(), doms=None):
+    doms = doms or d['dom']
     datas = [gen_vals(rng, doms[min(i, len(doms) - 1)], t, prod(s)) for i, (t, s) in enumerate(zip(ts, ss))]
     if d['name'] == 'clip':
         pass
@@ -554,6 +569,9 @@ def _gen(tier, rng):
                     yield case_for(rng, d, ts, [[2, 3], []], nums=(1,))
                     yield case_for(rng, d, ts, [[], [3, 1]], nums=(0,))
                     yield case_for(rng, d, ts, [[], []], nums=(0, 1))
+                    if d['name'] in EXTREMES:
+                        for a, b in [([2, 3], [3]), ([4, 1], [1, 4]), ([5], [])]:
+                            yield case_for(rng, d, ts, [a, b], doms=['ext', 'ext'], tags=['extreme-values'])
                     if d['outer']:
                         for a, b in [([2], [3]), ([2, 1], [2]), ([], [2, 2]), ([2, 3], [1, 2]), ([3], [])]:
                             yield case_for(rng, d, ts, [a, b], kind='outer')
